@@ -71,6 +71,14 @@ def gen(rng, tier):
             elif k == "gon_strategy": a = [0 if valid else 1]
             reqs.append({"k": k, "a": a, "valid": valid})
         init_o = [[a, b] for a, b in E if rng.random() < 0.6]
+        if E and rng.random() < 0.35:
+            # an episode on the orientation: every edge gets a direction, divisor() is asked (accepted: the orientation is full and now known to be),
+            # one edge is cleared again - named from either end - and divisor() / reverse() are asked once more (the model decides: refused)
+            ep = [{"k": "o_set", "a": [x, y, rng.choice([1, 2])] if rng.random() < 0.5 else [y, x, rng.choice([1, 2])], "valid": True} for x, y in E]
+            ep.append({"k": "o_divisor", "a": [], "valid": None}); x, y = rng.choice(E)
+            ep.append({"k": "o_set", "a": [y, x, 0] if rng.random() < 0.5 else [x, y, 0], "valid": True})
+            ep += [{"k": rng.choice(["o_divisor", "o_reverse"]), "a": [], "valid": None}, {"k": "o_divisor", "a": [], "valid": None}]
+            i = rng.randrange(len(reqs) + 1); reqs[i:i] = ep
         out.append({"G": G, "D": common.random_divisor(rng, G), "q": q, "hist": hist, "reqs": reqs, "init_o": init_o, "s": rng.randrange(1 << 30)})
     return out
 
@@ -212,6 +220,14 @@ def judge(c, r, mo):
 def oracle(c, r):
     if r is None or "exc" in r: return {"violates": True, "why": "scenario raised"}
     expM = _apply_graph_requests(c)
+    # the orientation, followed from the definitions: which edges carry a direction decides whether divisor() / reverse() may answer
+    E = {(min(a, b), max(a, b)) for a, b, _ in c["G"]["edges"]}; odir = {(min(a, b), max(a, b)): 1 for a, b in c["init_o"]}
+    for i, (rq, ir) in enumerate(zip(c["reqs"], r["ok"])):
+        if rq["k"] == "o_set" and ir["res"] != "err" and (min(rq["a"][0], rq["a"][1]), max(rq["a"][0], rq["a"][1])) in E:
+            odir[(min(rq["a"][0], rq["a"][1]), max(rq["a"][0], rq["a"][1]))] = rq["a"][2]
+        if rq["k"] in ("o_divisor", "o_reverse"):
+            full = all(odir.get(e, 0) != 0 for e in E)
+            if (ir["res"] != "err") != full: return {"violates": True, "why": "request #%d %s answered %s although %s" % (i, rq["k"], ir["res"], "every edge is oriented" if full else "some edge carries no direction")}
     for i, (rq, ir) in enumerate(zip(c["reqs"], r["ok"])):
         if rq["valid"] is False and ir["res"] != "err": return {"violates": True, "why": "invalid request #%d %s%s returned a result" % (i, rq["k"], rq["a"])}
         if ir["res"] == "err" and not ir["unchanged"]: return {"violates": True, "why": "refused request #%d %s%s changed state" % (i, rq["k"], rq["a"])}
